@@ -48,8 +48,21 @@ def case_seed(base_seed, prop, i):
 def run_one(prop, tier, base_seed, i):
     eng = engine_for(prop)
     d = Draws.from_seed(case_seed(base_seed, prop, i))
-    res = eng.run_case(d, prop, tier)
+    res = run_isolated(eng, d, prop, tier)
     return d, res
+
+
+def run_isolated(eng, d, prop, tier):
+    """One case = one process lifetime (sim/forkcase.py).  The hist engine
+    forks by itself (it needs its prepared state in the child)."""
+    if eng.__name__.endswith("hist.engine") or \
+            os.environ.get("VERIF_NO_FORK"):
+        return eng.run_case(d, prop, tier)
+    from .forkcase import ChildFailure, run_in_child
+    try:
+        return run_in_child(lambda: eng.run_case(d, prop, tier), d)
+    except ChildFailure as err:
+        raise HarnessFailure(str(err))
 
 
 def _work(args):
@@ -180,7 +193,7 @@ def reproduce(prop, tier, recorded, ident, verbose=False):
     eng = engine_for(prop)
     d = Draws.replay(recorded)
     try:
-        res = eng.run_case(d, prop, tier)
+        res = run_isolated(eng, d, prop, tier)
     except Exception:  # noqa: B902 - a candidate that breaks the harness
         if verbose:
             traceback.print_exc()
@@ -263,7 +276,7 @@ def replay_cli(prop, path):
 
 QUICK_RUNS = {
     "C04": 1200, "C08": 800, "C09": 1400, "C10": 2400, "C16": 1400,
-    "C17": 2400, "C12": 1200, "C13": 5000, "C14": 1200,
+    "C17": 8000, "C12": 1200, "C13": 5000, "C14": 1200,
 }
 CHUNK = {"C12": 20}
 
